@@ -10,6 +10,7 @@ use crate::function::NativeFn;
 use crate::{
 	error::ErrorKind::InfiniteRecursionDetected,
 	evaluate,
+	stack::check_depth,
 	typed::{IntoUntyped, Typed},
 	val::ThunkValue,
 	Context, Error, ObjValue, Result, Thunk, Val,
@@ -160,7 +161,12 @@ impl ArrayLike for ExprArray {
 			unreachable!()
 		};
 
-		let new_value = match evaluate(self.ctx.clone(), &self.src[index]) {
+		// Element evaluation nests on the native stack like a call does, count it
+		// towards the stack depth limit so that runaway recursion is reported.
+		let new_value = match check_depth()
+			.map_err(Error::from)
+			.and_then(|_guard| evaluate(self.ctx.clone(), &self.src[index]))
+		{
 			Ok(v) => v,
 			Err(e) => {
 				self.cached.borrow_mut()[index] = ArrayThunk::Errored(e.clone());
